@@ -251,7 +251,21 @@ func (t *tattach) handle(cs *connState) message {
 	if err != nil {
 		return newErr(err)
 	}
-	qid, valid, attr, err := sf.GetAttr(AttrMaskAll)
+	// GetAttr is a read-class call on the root path: exclude renames and
+	// write-class calls on the root like every other GetAttr does.
+	var (
+		qid   QID
+		valid AttrMask
+		attr  Attr
+	)
+	err = func() (err error) {
+		cs.server.renameMu.RLock()
+		defer cs.server.renameMu.RUnlock()
+		cs.server.pathTree.opMu.RLock()
+		defer cs.server.pathTree.opMu.RUnlock()
+		qid, valid, attr, err = sf.GetAttr(AttrMaskAll)
+		return err
+	}()
 	if err != nil {
 		sf.Close() // Drop file.
 		return newErr(err)
